@@ -86,6 +86,24 @@ def check_program(label: str, src: str, acc: Acc, horizon: int, raising: bool = 
         acc.viol(PROP, f"{PROP}/does-not-compile", f"{label}: regenerated source does not define transformed_f: {type(e).__name__}: {e}",
                  (src,), case={"label": label, "source": src, "regenerated": p.text})
         return
+    # history on one graph: regenerating from the SAME restructured graph again must work too (code generation must not wear
+    # out its input); a differing second text is executed instead of the first
+    import ast as _ast
+    from numba_scfg.core.datastructures.ast_transforms import SCFG2ASTTransformer
+    from ..kernel import guarded
+    try:
+        text2 = _ast.unparse(guarded(SCFG2ASTTransformer().transform, original=p.orig_tree[0], scfg=p.scfg))
+        compile(text2, "<regenerated twice>", "exec")
+        if text2 != p.text:
+            acc.counters["second_regeneration_text_differs(executed instead)"] += 1
+            f2 = compile_fn(text2, "transformed_f", env2)
+    except NotImplementedError:
+        text2 = None
+    except Exception as e:  # noqa: BLE001
+        acc.viol(PROP, f"{PROP}/second-regeneration-fails", f"{label}: regenerating Python from the same restructured graph a second time "
+                 f"fails with {type(e).__name__}: {str(e)[:120]}", (src,), shape=source_shapes(src),
+                 case={"label": label, "source": src, "regenerated": p.text, "horizon": horizon, "raising": raising})
+        return
     # history + entry points: the same text converted a second (and third) time through the public string entry points
     # AST2SCFG / SCFG2AST must regenerate exactly the text the first conversion (transformer classes, parsed tree) gave
     rebuild = label.startswith(("S0", "S1", "T/", "X")) or (label.startswith("S2/marked") and hash_label(label) % 4 == 0) \
